@@ -134,8 +134,17 @@ class ExactScalarArray(eqx.Module):
         # TODO: check for overflow and potentially refactor sum routine to scan
         # the array and reduce scalars every couple steps
 
-        min_power = jnp.min(self.power, keepdims=True, axis=-1)
-        pow = (self.power - min_power)[..., None]
+        # An exactly-zero summand carries an arbitrary power. Aligning to it can shift the
+        # non-zero summands out of int32, so align to the smallest power among the
+        # non-zero summands (zero contributes nothing whatever its power).
+        nonzero = jnp.any(self.coeffs != 0, axis=-1)
+        masked_power = jnp.where(nonzero, self.power, jnp.iinfo(self.power.dtype).max)
+        min_power = jnp.where(
+            jnp.any(nonzero, axis=-1, keepdims=True),
+            jnp.min(masked_power, keepdims=True, axis=-1),
+            jnp.min(self.power, keepdims=True, axis=-1),
+        )
+        pow = jnp.where(nonzero, self.power - min_power, 0)[..., None]
         aligned_coeffs = self.coeffs * 2**pow
         summed_coeffs = jnp.sum(aligned_coeffs, axis=-2)
         return ExactScalarArray(summed_coeffs, min_power.squeeze(-1))
